@@ -536,6 +536,35 @@ pub enum SetDomain {
     Documented,
 }
 
+/// Mostly settings reachable in the game, one time in five anything inside the documented ranges (clock rate 0.01..100,
+/// overrides -20..20): for monitors whose property quantifies over *all* settings.
+pub fn gen_setspec_wide(rng: &mut Rng, mode: GameMode, map: &rosu_pp::Beatmap) -> SetSpec {
+    let dom = if rng.chance(0.2) { SetDomain::Documented } else { SetDomain::Game };
+    let mut s = gen_setspec(rng, mode, dom);
+    // a tiny clock rate stretches the map: keep the number of strain sections (and with it the cost of a case) bounded
+    if let Some(c) = s.clock {
+        if c < 0.5 && crate::maps::est_sections(map, c.max(0.01)) > 60_000.0 {
+            s.clock = Some(*rng.pick(&[0.5, 1.0, 3.0, 10.0]));
+        }
+    }
+    s
+}
+
+/// Game-reachable settings, except that the clock rate is drawn from the whole documented range one time in five
+/// (for monitors whose property quantifies over all clock rates but not over attribute overrides).
+pub fn gen_setspec_wide_clock(rng: &mut Rng, mode: GameMode, map: &rosu_pp::Beatmap) -> SetSpec {
+    let mut s = gen_setspec(rng, mode, SetDomain::Game);
+    if rng.chance(0.2) {
+        let c = if rng.chance(0.5) {
+            *rng.pick(&[0.01, 0.1, 0.25, 3.0, 10.0, 100.0])
+        } else {
+            10f64.powf(rng.frange(-2.0, 2.0))
+        };
+        s.clock = Some(if c < 0.5 && crate::maps::est_sections(map, c) > 60_000.0 { 3.0 } else { c });
+    }
+    s
+}
+
 pub fn gen_setspec(rng: &mut Rng, mode: GameMode, dom: SetDomain) -> SetSpec {
     let mut s = SetSpec {
         mods: gen_mods(rng, mode),
